@@ -1,7 +1,8 @@
 (* Properties/C13.v — input forms and peeking.  Statements only; every proof is `exact`.
    [feat_peek] models _FeatureIterator.peek (take n+1, chain back iff one-shot), [iterate] models
    _BaseIterator.__iter__ with a possibly stateful transform. *)
-From GV Require Import Base.Prelude Base.PyStr Model.Iter Proofs.C13Proofs.
+From GV Require Import Base.Prelude Base.PyStr Base.Utf8 Base.WordTable Model.DB Model.Parser Model.Grammar Model.Dialect Model.File
+  Model.Iter Proofs.C07Parse Proofs.C07Proofs Proofs.C01Proofs Proofs.C13Proofs Proofs.C13Forms.
 
 Theorem C13_peek_lossless : forall (A : Type) n (d : source A),
   fst (feat_peek n d) = firstn (S n) (contents d) /\ contents (snd (feat_peek n d)) = contents d.
@@ -39,3 +40,25 @@ Theorem C13_inspect_count : forall (A : Type) (limit : option nat) (l : list A),
   length (limited limit l) = match limit with Some (S n) => Nat.min (S n) (length l) | _ => length l end.
 Proof. exact @l_inspect_count. Qed.
 Print Assumptions C13_inspect_count.
+
+(* "The same annotation supplied as a path ... or a list of Features ... yields the same feature sequence": for every file in
+   one consistent style that fits its chosen dialect (C01's domain), every checklines value, supplied or voted dialect, and
+   every keep_order / sort_attribute_values setting, what DataIterator makes of the FILE ([import_model]: peek, vote, second
+   pass with the chosen dialect) is what it makes of the ready-made OBJECTS ([objects_model]: vote over the objects' own
+   dialects, every object yielded once in order with the chosen dialect) - the same dialect and the same features. *)
+Theorem C13_path_equals_objects : forall st cfg fs,
+  (forall f, In f fs -> wf_feature st f = true /\ f_dialect f = canon_dialect st (f_attrs f)) ->
+  (forall f, In f fs -> fits st (f_attrs f) (chosen st cfg fs) = true) ->
+  import_model isword cfg (map (render_line st) fs) = Ok (objects_model cfg fs).
+Proof.
+  intros st cfg fs Hall Hfits.
+  exact (l_path_equals_objects isword isword_ascii isword_eq isword_sp st cfg fs Hall (fun f Hf => fits_prop _ _ _ (Hfits f Hf))).
+Qed.
+Print Assumptions C13_path_equals_objects.
+
+(* ... and a one-shot iterator of those objects, peeked for any number of items (twice, when create_db re-uses the iterator),
+   yields what the list yields *)
+Theorem C13_oneshot_equals_list : forall cfg n m (fs : list feature),
+  objects_model cfg (contents (snd (feat_peek m (snd (feat_peek n (SIter fs)))))) = objects_model cfg fs.
+Proof. intros cfg n m fs. rewrite l_peek_twice. reflexivity. Qed.
+Print Assumptions C13_oneshot_equals_list.
